@@ -9,7 +9,10 @@ VARIABLES l, tg, pa
 vars == <<l, tg, pa>>
 Ev(k) == l <= NRec /\ Rec[l].ev = k
 E == Rec[l]
-Stateless == l' = l + 1 /\ UNCHANGED <<tg, pa>>
+(* no call made while the event was recorded panicked (a panicking call is recorded with a
+   value of the right type so that TLC can compare it, and counted here) *)
+NoPanic == Expect(E.panics = 0, <<l, "a call panicked", E.panics>>)
+Stateless == NoPanic /\ l' = l + 1 /\ UNCHANGED <<tg, pa>>
 Init == l = 1 /\ tg = <<>> /\ pa = <<>>
 
 H(x) == [k |-> x.k, a |-> x.a, b |-> x.b]
@@ -72,7 +75,7 @@ EvTObs == /\ Ev("tobs")
                          /\ E.cmp[i].c = Candidate(A, H(E.cmp[i].h)), <<l, "tobs-cmp", A>>)
              /\ Expect(AsSets(E.m1) = MaskSets(A.a) /\ AsSets(E.m2) = MaskSets(A.b)
                        /\ E.l1 = Len(A.a) /\ E.l2 = Len(A.b), <<l, "tobs-masks", A>>)
-          /\ UNCHANGED <<tg, pa>> /\ l' = l + 1
+          /\ NoPanic /\ UNCHANGED <<tg, pa>> /\ l' = l + 1
 EvPInit == /\ (Ev("pinit") \/ Ev("pnew") \/ Ev("pclear"))
            /\ pa' = (E.p :> (IF E.ev = "pinit" THEN E.s ELSE <<>>)) @@ pa
            /\ l' = l + 1 /\ UNCHANGED tg
@@ -81,7 +84,7 @@ EvPObs == /\ Ev("pobs")
              /\ Expect(E.len = Len(s) /\ E.valid = TRUE /\ E.vn = IsNormalized(s) /\ E.empty = (Len(s) = 0), <<l, "pobs", s>>)
              /\ Expect(AsSets(E.m) = MaskSets(s), <<l, "pobs-masks", s>>)
              /\ Expect(\A i \in 1..Len(E.equiv) : E.equiv[i].r = (E.equiv[i].s = s), <<l, "pobs-equiv", s>>)
-          /\ UNCHANGED <<tg, pa>> /\ l' = l + 1
+          /\ NoPanic /\ UNCHANGED <<tg, pa>> /\ l' = l + 1
 
 (* ---------------- C20: complete finite domains ---------------- *)
 RECURSIVE WDouble(_, _)
